@@ -160,9 +160,13 @@ class Interp:
         self.inline_skip = set()  # function quals not to inline (treated as opaque)
         self.loop_depth = 0
         self.table_values = False
+        self._pure_cache: Dict[str, bool] = {}
         # get_const is a trusted primitive (its body is checked structurally by C18-R3):
         # it returns a const module and raises nothing for a sanitised version string.
-        self.opaque_handlers = {"const:get_const": lambda it, st, info, args, kwargs, node: [("val", st, ModV("const:?"))]}
+        self.opaque_handlers = {
+            "const:get_const": lambda it, st, info, args, kwargs, node: [("val", st, ModV("const:?"))],
+            "const:version_at_least": self._version_at_least,
+        }
         self._abstract = {
             "Gateway": ctx.gateway,
             "Tasks": ctx.tasks,
@@ -513,13 +517,52 @@ class Interp:
     PURE_MODULES = ("validation", "const", "util")
     PURE_FUNCS = ("message:Message.validate", "message:Message.__repr__", "sensor:ChildSensor.get_schema", "sensor:ChildSensor.validate", "sensor:Sensor.validate_child_state")
 
+    MUTATING_CALLS = {"append", "appendleft", "pop", "popleft", "popitem", "update", "clear", "extend", "insert", "remove", "setdefault", "add_job", "send", "alert", "setattr", "write", "close", "start", "cancel", "set", "rename", "replace", "dump", "fsync", "flush", "sleep", "add_sensor", "add_child_sensor", "set_handler"}
+
     def is_pure_helper(self, info) -> bool:
-        """Helpers without effects on gateway state: their internal case splits are joined at return."""
-        return info.module.name in self.PURE_MODULES or info.module.name.startswith("const_") or info.qual in self.PURE_FUNCS
+        """Helpers without effects on gateway state: their internal case splits are joined at return.
+
+        Either one of the listed pure modules / functions, or syntactically pure: no store to an
+        attribute or subscript, no del, no call of a mutating method, no await / raise-free is not
+        required (raising is fine), and every repo call inside it is itself to a pure helper.
+        """
+        if info.module.name in self.PURE_MODULES or info.module.name.startswith("const_") or info.qual in self.PURE_FUNCS:
+            return True
+        cached = self._pure_cache.get(info.qual)
+        if cached is not None:
+            return cached
+        self._pure_cache[info.qual] = False  # recursion guard
+        pure = True
+        for n in ast.walk(info.node):
+            if isinstance(n, (ast.Assign, ast.AugAssign, ast.AnnAssign)):
+                targets = n.targets if isinstance(n, ast.Assign) else [n.target]
+                for t in targets:
+                    for tt in ast.walk(t):
+                        if isinstance(tt, (ast.Attribute, ast.Subscript)) and isinstance(getattr(tt, "ctx", None), ast.Store):
+                            pure = False
+            elif isinstance(n, (ast.Delete, ast.Await, ast.Global, ast.Nonlocal, ast.With, ast.AsyncWith)):
+                pure = False
+            elif isinstance(n, ast.Call):
+                f = n.func
+                name = f.attr if isinstance(f, ast.Attribute) else (f.id if isinstance(f, ast.Name) else "")
+                if name in self.MUTATING_CALLS:
+                    pure = False
+                elif isinstance(f, ast.Attribute) and isinstance(f.value, ast.Name) and f.value.id == "self" and info.cls is not None:
+                    m = self.p.find_method(info.cls.qual, name)
+                    if isinstance(m, FuncInfo) and m is not info and not self.is_pure_helper(m):
+                        pure = False
+            if not pure:
+                break
+        self._pure_cache[info.qual] = pure
+        return pure
 
     def emit_exit(self, s, info, node, value=None):
         func, line = (s.frames[-1]["__func__"].qual, getattr(node, "lineno", 0)) if s.frames else ("<root>", 0)
-        s.emit(Event("exit", info.qual, None, (value,) if value is not None else (), None, func, line, s.stack, s.facts))
+        if self.is_pure_helper(info):
+            # the value a pure helper returned does not identify the path: keep it out of the signature
+            s.emit(Event("exit", info.qual, None, (), None, func, line, s.stack, s.facts, value))
+        else:
+            s.emit(Event("exit", info.qual, None, (value,) if value is not None else (), None, func, line, s.stack, s.facts))
 
     def dedupe(self, outs: List[Outcome], merge_facts: bool = False) -> List[Outcome]:
         """Join outcomes that differ only in *unprotected* must-facts (facts about temporaries
@@ -1108,6 +1151,16 @@ class Interp:
             return Const(floor)
         return BoolV(("cmp", type(op).__name__, a.key(), b.key()))
 
+    def _version_at_least(self, it, st, info, args, kwargs, node):
+        """version_at_least(gateway.protocol_version, "<table version>") is decided by the context (A-FLOOR);
+        the helper's body is checked structurally by C18-R4."""
+        gwpv = ("attr", ("root", "GW"), "protocol_version")
+        if len(args) == 2 and args[0].key() == gwpv and isinstance(args[1], Const) and args[1].value in self.refl["const_versions"]:
+            def ver(s):
+                return tuple(int(p) for p in s.split("."))
+            return [("val", st, Const(ver(self.ctx.version) >= ver(args[1].value)))]
+        return [("val", st, Unknown("bool", label=f"version_at_least({args[0].key() if args else None!r})"))]
+
     def version_floor_compare(self, op, a: V, b: V) -> Optional[bool]:
         """AwesomeVersion(gateway.protocol_version) <op> AwesomeVersion("<table version>").
 
@@ -1189,7 +1242,20 @@ class Interp:
                     res.append((kind, s, vals))
                     continue
                 base = vals[0]
-                res.append(("val", s, self.ext.slice_value(self, s, base, node)))
+                sv = self.ext.slice_value(self, s, base, node)
+                # remember the abstract bounds of the slice (dataflow rules read them)
+                bounds = {}
+                idx = 1
+                for nm in ("lower", "upper", "step"):
+                    if getattr(node.slice, nm) is not None:
+                        bounds[nm] = vals[idx]
+                        idx += 1
+                try:
+                    sv.slice_of = base
+                    sv.slice_bounds = bounds
+                except AttributeError:
+                    pass
+                res.append(("val", s, sv))
             return res
         res = []
         for kind, s, vals in self.ev_list([node.value, node.slice], st):
@@ -1586,6 +1652,8 @@ class Interp:
             n = len(tgt.elts)
             outs: List[Outcome] = []
             items = None
+            if isinstance(val, Const) and isinstance(val.value, (tuple, list)):
+                val = TupleV([Const(x) for x in val.value])
             if isinstance(val, TupleV) or (isinstance(val, ListV) and val.items is not None):
                 if len(val.items) != n:
                     return [self.raise_(st, ValueError, node, f"cannot unpack {len(val.items)} values into {n} targets")]
@@ -1699,7 +1767,14 @@ class Interp:
                 exact = [getattr(itv, "keyobjs", {}).get(k, Const(k)) for k in itv.entries]
             elif isinstance(itv, ExtObj) and itv.cls == "dict_items" and isinstance(itv.args[0], DictV) and itv.args[0].closed:
                 exact = [TupleV([Const(k), v]) for k, v in itv.args[0].entries.items()]
-            if exact is not None and len(exact) <= 6:
+            elif isinstance(itv, Const) and isinstance(itv.value, (tuple, list)):
+                exact = [Const(x) for x in itv.value]
+            elif isinstance(itv, Const) and isinstance(itv.value, dict):
+                exact = [Const(x) for x in itv.value]
+            elif isinstance(itv, ExtObj) and itv.cls in ("dict_items", "dict_keys", "dict_values") and itv.args and isinstance(itv.args[0], Const) and isinstance(itv.args[0].value, dict):
+                d = itv.args[0].value
+                exact = [TupleV([Const(k), Const(v)]) for k, v in d.items()] if itv.cls == "dict_items" else [Const(k) for k in d] if itv.cls == "dict_keys" else [Const(v) for v in d.values()]
+            if exact is not None and len(exact) <= 8:
                 frontier = [s]
                 for item in exact:
                     nxt = []
